@@ -488,6 +488,7 @@ func (g *Gen) intBin(op string, a, b string, t types.Type, bConst *big.Int) (str
 				g.declared[key] = true
 				pos := "(and (>= " + a + " 0) (> " + b + " 0))"
 				g.emit(evAssert, fmt.Sprintf("(assert (=> %s (and (<= 0 %s) (< %s %s))))", pos, r, r, b))
+				g.emit(evAssert, fmt.Sprintf("(assert (=> %s (= %s (+ (* %s (div %s %s)) %s))))", pos, a, b, a, b, r)) // a == b*(a/b) + a%%b
 				g.emit(evAssert, fmt.Sprintf("(assert (=> (and %s (< %s %s)) (= %s %s)))", pos, a, b, r, a))
 				g.emit(evAssert, fmt.Sprintf("(assert (=> (and %s (<= %s %s) (< %s (* 2 %s))) (= %s (- %s %s))))", pos, b, a, a, b, r, a, b))
 				g.emit(evAssert, fmt.Sprintf("(assert (=> (and %s (<= (* 2 %s) %s) (< %s (* 3 %s))) (= %s (- %s (* 2 %s)))))", pos, b, a, a, b, r, a, b))
